@@ -913,6 +913,11 @@ class ProcessingPipeline:
 
     def apply(self, rule: SigmaRule | SigmaCorrelationRule) -> SigmaRule | SigmaCorrelationRule:
         """Apply processing pipeline on Sigma rule."""
+        # The items might be shared with another pipeline that was composed from the same item
+        # objects afterwards and took ownership of them. Take it back, so that state and tracking
+        # information of the items end up in this pipeline.
+        self._clear_pipeline()
+        self.set_pipeline()
         self.applied = list()
         self.applied_ids = set()
         self.field_name_applied_ids = defaultdict(set)
